@@ -368,7 +368,7 @@ def run_engine_a(sc, binary, mode, tier, seed0, count, chunk, nproc, race=False,
                 if spec is None:
                     raise HarnessError("engine A batch %d:%d was killed (%s) and its spec could not be regenerated" % (start, n, dead[1]))
                 done.append({"seed": seed, "sig": "dead-%d" % seed, "spec": spec, "decisions": None, "stats": {}, "nontrivial": True,
-                             "prefix_seeds": list(range(start, seed)), "tier": tier, "tz": env.get("TZ"), "from_seed_only": True,
+                             "prefix_seeds": list(range(start, seed)), "tier": tier, "tz": env.get("TZ"), "gomaxprocs": int(env.get("GOMAXPROCS", "4")), "from_seed_only": True,
                              "violation": {"class": "process_killed", "task": -1, "op": -1, "kind": "process_killed", "sig": dead[0],
                                            "detail": "the process was killed by a panic in a goroutine the library started: " + dead[1]}})
                 stop["n"] += 1
@@ -394,11 +394,14 @@ def replay_once(sc, binary, rfile, race=False, timeout=300):
             "-refdir", os.path.join(sc.dir, "refcache")]
     env = {"GOMAXPROCS": "4"}
     try:
-        tz = json.load(open(rfile)).get("tz")
+        rfj = json.load(open(rfile))
+        tz, gmp = rfj.get("tz"), rfj.get("gomaxprocs")
     except Exception:
-        tz = None
+        tz, gmp = None, None
     if tz:
         env["TZ"] = tz  # the environment of the process is part of the run
+    if gmp:
+        env["GOMAXPROCS"] = str(gmp)
     if race:
         prefix = os.path.join(sc.dir, "race", "replay-%d-%d" % (os.getpid(), random.randrange(1 << 30)))
         args += ["-racelog", prefix]
@@ -568,7 +571,7 @@ def report_violations_a(prop, sc, binary, agg, race=False, max_report=2):
             continue
         r = min(runs, key=lambda x: x["seed"])
         rf = {"property": prop, "engine": "A-race" if race else "A", "seed": r["seed"], "tree": sc.tree_hash,
-              "spec": r["spec"], "decisions": r["decisions"], "violation": r["violation"], "tz": r.get("tz"),
+              "spec": r["spec"], "decisions": r["decisions"], "violation": r["violation"], "tz": r.get("tz"), "gomaxprocs": r.get("gomaxprocs"),
               "prefix": {"mode": r["spec"]["mode"], "tier": r.get("tier", "quick"), "seeds": r.get("prefix_seeds") or []}}
         rdir = out_dir("replays")
         raw = os.path.join(rdir, "%s-%d-raw.json" % (prop, r["seed"]))
